@@ -1,11 +1,79 @@
 N = {"quick": 400, "thorough": 20000}
 EXHAUSTIVE = {"quick": False, "thorough": True}
-RULE = "tbd"
-ASSUMPTIONS = []
+RULE = ("per case: rule set spot|futures, 1-3 instruments on one connection; per instrument a simulated venue of 1-40 (thorough 1-60) elementary changes over "
+        "<= 6 prices (both sides, 15/30/50 % deletions, contiguous or gapped ids), cut into genuine depth messages at random cut points (U=lo+1 / first id in "
+        "range, pu=lo, u=hi; levels = amounts at hi of the touched prices, shuffled, optionally with restated untouched prices and repeated levels), REST snapshot "
+        "= venue book at an id chosen among cut points, cut+-1, 0, last id(+1) or any event id; delivery = the in-order stream started early / at the covering "
+        "message / late / anywhere, 45 % unperturbed, else 1-2 of {drop, duplicate adjacent, duplicate later, swap neighbours, replay an old prefix}; 12 % of the "
+        "cases add 1-6 non-genuine messages with arbitrary ids around the snapshot id; 3 % messages for a never-subscribed symbol; instruments' deliveries "
+        "interleaved at random; 4 % of the cases have a missing / non-snapshot initial event (init error). Every snapshot and message is JSON parsed by the real "
+        "serde types, the transformer is built by the real ExchangeTransformer::init, every message goes through the real Transformer::transform (and a "
+        "stand-alone real *Sequencer::validate_sequence whose public fields are printed), delivered events through the real OrderBook::update, and the whole "
+        "output list through the real with_termination_on_error(|e| e.is_terminal()). thorough additionally enumerates, for both rule sets, every sequence of "
+        "<= 3 messages over 20 (U,u,pu) triples around a snapshot at id 5 (16 840 cases). A case is distinct by the SHA-1 of its op lines and non-trivial "
+        "when the implementation's observation block changes at least once")
+ASSUMPTIONS = [
+    "the venue's contract (trusted, DESIGN C06): delivered depth messages are genuine - each states, for some id range (lo,hi], the amount at hi of every price "
+    "touched in the range (u=hi; spot U=lo+1; futures pu=lo and lo < U <= first event id in the range) - and the REST snapshot is the venue's book as of its "
+    "lastUpdateId; which messages arrive, how often and in which order is unrestricted. The sequencer theorems (trichotomy, admitted_chain) need no assumption at all",
+    "no_false_alarm (futures): the snapshot's lastUpdateId is the id of an event of the venue and the delivery contains the message whose range contains it "
+    "(c0 < s <= u); a futures delivery that starts with the message *after* a snapshot taken exactly at a message boundary (pu = s) is rejected by the "
+    "published first-message rule U <= s <= u itself - this is the venue's rule, not a deviation of the code",
+    "subscription ids on one connection map to pairwise distinct instrument keys (connection-level theorems)",
+    "snapshot sides strictly ordered (book_is_truth) and free of zero amounts (book_is_truth_exact): what OrderBook::new yields for a venue snapshot (C05 precondition)",
+    "exact rationals for Decimal; u64 ids as unbounded naturals (last_update_id + 1 overflow at 2^64 not modelled); time_exchange/time_engine/time_received not modelled",
+    "Transformer::transform's `input.id() == None => vec![]` arm is unreachable for these message types (id() is always Some) and is not modelled; the FnvHashMap "
+    "instrument map is an association list (first match = only match for distinct subscription ids)",
+    "with_termination_on_error is modelled by its list semantics (map_while); that the outer reconnecting stream then re-initialises and emits one Reconnecting "
+    "notice is property C12",
+]
 SOURCE_FILES = ["barter-data/src/exchange/binance/spot/l2.rs", "barter-data/src/exchange/binance/futures/l2.rs",
                 "barter-data/src/exchange/binance/book/l2.rs", "barter-data/src/books/mod.rs", "barter-data/src/error.rs",
                 "barter-data/src/streams/reconnect/stream.rs"]
+
+
+def signature(ops, k, key, impl_line, spec_line):
+    op = ops[k].split() if k < len(ops) else ["?"]
+    rules = ops[0].split()[1] if ops and ops[0].startswith("init") and len(ops[0].split()) > 1 else "?"
+    if key == "alive":
+        want = spec_line.split()[-1]
+        clause = "false_alarm_or_missing_error" if want == "1" else "break_not_reported"
+    elif key.startswith("book") or key.startswith("fbook"):
+        clause = "book_differs_from_venue_at_reported_sequence"
+    else:
+        clause = key
+    return f"clause={clause} rules={rules} op={op[0]}"
+
+
 CLAIM = True
-TECHNIQUE = "tbd"
-LEVEL_TEXT = "tbd"
-LEVEL_NOTE = "tbd"
+TECHNIQUE = ("Lean 4: complete case characterisation of validate_sequence against the venue's published rule (both rule sets, one parameterised model); chain "
+             "invariant by induction over arbitrary deliveries; ground-truth venue (list of changes, bookAt) with a key lemma (a genuine message for (lo,hi] moves "
+             "bookAt x to bookAt hi for every lo <= x <= hi) composed with C05's abs/upsert refinement and canonical form into a coupling invariant (Synced) for one "
+             "instrument and for a whole multi-instrument connection; no-false-alarm by induction over gap-free runs; equivalence of the per-message consumer view "
+             "with the with_termination_on_error list semantics; correspondence with the real serde types, ExchangeTransformer::init, Transformer::transform, "
+             "*Sequencer::validate_sequence, OrderBook::update and with_termination_on_error")
+LEVEL_TEXT = ("Proof. Lean theorems over the sequencing model composed with C05's book (lean/BarterModel/Props/C06.lean), all full strength (no _partial), every "
+              "one for both the spot and the USD-futures rule set: validate_sequence_trichotomy (every state, every message: stale => dropped, state unchanged; "
+              "non-stale and extending => admitted, counter+1, last=u; non-stale and not extending => InvalidSequence{last,U}, state unchanged - exclusive and "
+              "exhaustive), sequencer_error_terminal / terminal_iff (the only sequencer error is the terminal one), admitted_chain / admitted_linked / "
+              "admitted_not_stale (for ANY message list after a snapshot at s, even continuing past errors, the admitted updates satisfy spot: first U<=s+1<=u then "
+              "U=prev u+1; futures: first U<=s<=u then pu=prev u; the sequencer counts exactly them and reports the last u), key_lemma / key_lemma_side / untouched, "
+              "book_is_truth (every delivery of genuine messages - any drops, duplicates, swaps, replays, early/late start - processed to the first error leaves a "
+              "strictly ordered book whose sequence is the sequencer's last id and whose two sides denote exactly the venue's book as of that sequence; an early stop "
+              "is a terminal error), book_is_truth_exact (with a zero-free snapshot the book is literally specBook, the value the spec driver computes from the venue), "
+              "book_is_truth_step, no_false_alarm (any number of messages stale w.r.t. the snapshot, in any order, followed by a gap-free in-order genuine run whose "
+              "first message covers the snapshot point: no error, every run message admitted, book = venue book at the last u), other_sequencer_untouched / "
+              "unknown_subscription / transform_is_sequencer / other_book_untouched (routing by subscription id; unknown id => one non-terminal Unidentifiable, "
+              "no state change), told_iff (a live connection ends exactly on a subscribed, non-stale, non-extending message), connection_start + "
+              "connection_book_is_truth (several instruments interleaved on one connection: every book is its own venue's book at the sequence it reports, after any "
+              "delivery), stream_view / terminate_spec (per-message view = whole output through with_termination_on_error; nothing after the first terminal error is "
+              "delivered), spec_step_agrees and isGenuine_iff (the executable spec the oracle runs is the rule / the genuineness the theorems speak about). Unbounded "
+              "in venue size, ids, delivery length, number of instruments. The model is tied to the code on every run through the real serde types, init, transform, "
+              "validate_sequence, OrderBook::update and with_termination_on_error; the oracle recomputes the book from the simulated venue, never from the messages.")
+LEVEL_NOTE = ("Trusted: Lean kernel; axioms propext/Classical.choice/Quot.sound only; the hand-written model (one definition per Rust function, parameterised by the rule "
+              "set; hash map as association list; map_while as list function), tied by sampled correspondence (400 quick / 20k random + 16.8k small-scope exhaustive "
+              "id sequences thorough); harness, drivers, orchestrator. Hypotheses: messages and snapshot are genuine in the stated sense (the venue's contract; "
+              "trichotomy and admitted_chain need none); futures no_false_alarm needs the delivery to contain the message covering the snapshot id (the published "
+              "rule rejects a start at pu = s); distinct instrument keys per connection; that the terminal error leads to re-initialisation and a Reconnecting notice "
+              "is C12's statement. no_false_alarm is stated for one instrument (Local.run); for interleaved instruments it follows per instrument only through "
+              "connection_book_is_truth/told_iff, not as a separate connection-level theorem. Exact rationals; u64 overflow and timestamps not modelled.")
